@@ -16,6 +16,11 @@ CHECKS = {
          'Held on N generated directory trees x request paths: no response contained the canary of an outside file or an outside directory entry, and every 2xx body was (a byte range of) a regular file really inside the root. Exploration: the space of layouts x paths is unbounded; the oracle is input independent, so every generated request is a test.',
          'Trusts the canary construction (unique random tokens) and os/filepath semantics of the sandbox filesystem. Special files are not generated. The CLI mux is mimicked by an http.ServeMux mounted with the same pattern rule as registerStaticRoutes.',
          'DESIGN.md §3 C17'),
+ 'C13': ('exploration',
+         'statement-skeleton monitor against a benign baseline + unsafe-token monitor + value-independence monitor on recorded (sql,args) of every entry point (recording database/sql driver for postgres/mysql, wrapping driver over real in-memory SQLite) + sentinel-table state oracle',
+         'Held on N generated slot fillings over 32 entry points x 3 drivers: every statement that reached the database had the token skeleton of the benign statement, carried only safe quoted identifiers, allow-listed operators/join types, single-definition column types, did not change with values, and left the SQLite sentinel table, table set and column lists as modelled.',
+         'Trusts the 120-line SQL lexer and the independent restatement of the safe grammar in c13.go. PostgreSQL/MySQL are checked on statement text only (no server in the sandbox); SQLite statements are executed for real.',
+         'DESIGN.md §3 C13'),
 }
 NA = {}
 for p in props:
